@@ -588,7 +588,7 @@ func (w *world) ensure(st step, max int) (done bool, calls int, err error) {
 	return
 }
 
-func runCase(refs []*refIn, steps []step, drive string, lbl, ann, sameSvc bool) (interface{}, error) {
+func runCase(refs []*refIn, steps []step, drive string, lbl, ann, sameSvc, gone bool) (interface{}, error) {
 	out := caseOut{Refs: make([]refOut, len(refs))}
 	last := steps[len(steps)-1]
 	// ---- run A
@@ -663,12 +663,27 @@ func runCase(refs []*refIn, steps []step, drive string, lbl, ann, sameSvc bool) 
 		out.Err2 = e2.Error()
 	}
 	a.s.BeginAction("finalise")
+	if gone {
+		u := &unstructured.Unstructured{}
+		u.SetAPIVersion(refs[0].apiVersion)
+		u.SetKind(refs[0].k8sKind)
+		u.SetNamespace(ns)
+		u.SetName(refs[0].name)
+		if err := a.s.Delete(context.TODO(), u); err != nil {
+			return nil, fmt.Errorf("deleting the first ref: %v", err)
+		}
+	}
 	mod, ferr := a.ctrl.Finalise(context.TODO())
 	out.FinModified = mod
 	if ferr != nil {
 		out.FinErr = ferr.Error()
 	}
 	for i, r := range refs {
+		if gone && i == 0 {
+			// nothing left to restore: vacuously as the user had it
+			out.Refs[i].Final, out.Refs[i].SnapAfter = out.Refs[i].Orig, false
+			continue
+		}
 		v, snap, err := a.load(r)
 		if err != nil {
 			return nil, err
@@ -760,6 +775,7 @@ type caseSpec struct {
 	drive    string
 	lbl, ann bool
 	sameSvc  bool
+	gone     bool // the FIRST of two refs is deleted (by its user / the garbage collector) before Finalise
 }
 
 // featureOf names the hard shape a case carries (coarse; used to identify findings)
@@ -788,7 +804,7 @@ func lsome(b bool) string {
 
 func (c *caseSpec) input(refs []*refIn) map[string]interface{} {
 	return map[string]interface{}{"fam": c.fam, "cls": c.cls, "feature": featureOf(c.fam, c.cls), "nrefs": len(refs), "lbl": lsome(c.lbl), "ann": lsome(c.ann), "sameSvc": c.sameSvc,
-		"drive": c.drive, "steps": c.steps, "refs": refs}
+		"drive": c.drive, "steps": c.steps, "refs": refs, "gone": c.gone}
 }
 
 func alphabet(thorough bool) ([]step, int) {
@@ -799,7 +815,24 @@ func alphabet(thorough bool) ([]step, int) {
 	return alpha, 2
 }
 
+// enumerate: the base domain, plus for every third case with two refs the variant in which the first
+// ref no longer exists when the traffic routing is finalised (what remains must still be restored).
 func enumerate(thorough bool, emit func(c caseSpec)) {
+	k := 0
+	enumerateBase(thorough, func(c caseSpec) {
+		emit(c)
+		if len(c.mk()) == 2 {
+			k++
+			if thorough || k%3 == 0 {
+				g := c
+				g.gone = true
+				emit(g)
+			}
+		}
+	})
+}
+
+func enumerateBase(thorough bool, emit func(c caseSpec)) {
 	alpha, maxLen := alphabet(thorough)
 	seqs := sequences(alpha, maxLen)
 	metas := [][2]bool{{false, false}, {true, true}, {true, false}, {false, true}}
@@ -976,7 +1009,7 @@ func execOnce(c *caseSpec, refs []*refIn) (res rawResult) {
 			res.Panic = fmt.Sprintf("%v @ %s", r, stackOfRepo())
 		}
 	}()
-	out, err := runCase(refs, c.steps, c.drive, c.lbl, c.ann, c.sameSvc)
+	out, err := runCase(refs, c.steps, c.drive, c.lbl, c.ann, c.sameSvc, c.gone)
 	if err != nil {
 		res.Err = err.Error()
 	}
